@@ -209,6 +209,9 @@ func (g *Gen) genDeepcopyProgram(prefix string, npk int, arrayRefs bool) ([]dcPk
 		var b strings.Builder
 		// a named interface with a DeepCopy method and an implementation
 		hasIface := g.Chance(0.5)
+		if dcEmbedded && p == 0 {
+			hasIface = true
+		}
 		if hasIface {
 			b.WriteString("type Obj interface {\n\tDeepCopyObj() Obj\n\tGet() int\n}\n\n")
 			b.WriteString("// +k8s:deepcopy-gen=false\ntype Impl struct{ V *int }\n\nfunc (i *Impl) Get() int { return *i.V }\nfunc (i *Impl) DeepCopyObj() Obj {\n\tif i == nil {\n\t\treturn nil\n\t}\n\tv := *i.V\n\treturn &Impl{V: &v}\n}\n\n")
@@ -287,7 +290,11 @@ func (g *Gen) genDeepcopyProgram(prefix string, npk int, arrayRefs bool) ([]dcPk
 		}
 		if dcEmbedded && p == 0 {
 			b.WriteString("// +k8s:deepcopy-gen=true\ntype EBase struct {\n\tLabels map[string]string\n}\n\n// +k8s:deepcopy-gen=true\ntype EItem struct {\n\tEBase\n\tN int\n}\n\n// +k8s:deepcopy-gen=true\ntype EPItem struct {\n\t*EBase\n\tN int\n}\n\n// +k8s:deepcopy-gen=true\ntype EUser struct {\n\tS []EItem\n\tM map[string]EPItem\n\tOne EItem\n\tP *EItem\n}\n\n")
-			for _, n := range []string{"EBase", "EItem", "EPItem", "EUser"} {
+			// ... and a struct holding an interface value, used as a field, an element, a map value and a pointee
+			b.WriteString("// +k8s:deepcopy-gen=true\ntype EIfHolder struct {\n\tO Obj\n\tN int\n}\n\n// +k8s:deepcopy-gen=true\ntype EIfUser struct {\n\tF EIfHolder\n\tS []EIfHolder\n\tM map[string]EIfHolder\n\tP *EIfHolder\n}\n\n")
+			d.classes["interface-field"] = true
+			d.classes["struct-with-interface-field-in-nested-positions"] = true
+			for _, n := range []string{"EBase", "EItem", "EPItem", "EUser", "EIfHolder", "EIfUser"} {
 				cur.Types = append(cur.Types, dcType{Name: n, Kind: "struct", Generated: true})
 			}
 			d.classes["references-only-in-embedded-members"] = true
